@@ -23,8 +23,11 @@ def _write_replay(pid, subname, v):
     h = core.case_hash([subname, v.get("tag"), v["case"]])
     path = os.path.join(rdir, "%s-%s-%s.json" % (pid, subname, h))
     with open(path, "w") as f:
-        json.dump({"property": pid, "subcheck": subname, "tag": v.get("tag"), "msg": v.get("msg"),
-                   "details": v.get("details"), "case": v["case"]}, f, indent=1)
+        d = {"property": pid, "subcheck": subname, "tag": v.get("tag"), "msg": v.get("msg"),
+             "details": v.get("details"), "case": v["case"]}
+        if v.get("history"):
+            d["history"] = v["history"]
+        json.dump(d, f, indent=1)
     return path
 
 
@@ -39,7 +42,7 @@ def replay(pid, path):
         for kf in findings.load(pid, status="known"):
             if worker.replay_case(pid, kf["subcheck"], kf["witness"]) is not None:
                 pre_known.append(kf["slug"])
-        v = worker.replay_case(pid, sub, d["case"], known=pre_known)
+        v = worker.replay_case(pid, sub, d["case"], known=pre_known, history=d.get("history"))
     except worker.HarnessError as e:
         print("HARNESS-ERROR property=%s %s" % (pid, e))
         return 2
